@@ -222,3 +222,76 @@ func runSiblingAudit(h *Harness, j int) {
 	h.R.Sample = map[string]any{"scenario": "sibling-locations", "source": source, "backend": backend, "locations": len(locs)}
 	h.Cleanup(n)
 }
+
+// Cross-issuer audit (C11, also run under C01): two issuing CAs whose names, written out, are digit-prefix relatives
+// ("...O=Sim 2" and "...O=Sim 24"). A list of the second is loaded; for EVERY serial s it contains the validator is
+// asked about (first issuer, s) and (first issuer, "4"+s) — the certificate whose name-and-serial text reads the same
+// when the two are glued together — and about (second issuer, "4"+s). None of them is listed anywhere.
+func crossIssuerAuditRuns(tier string) int { return 2 }
+
+func runCrossIssuerAudit(h *Harness, j int) {
+	tp := h.Tape
+	sc := h.R.Scenario
+	backend := []string{"memory", "disk"}[j%2]
+	size := Pick(tp, 120, 300)
+	sc["scenario"], sc["backend"], sc["entries"] = "cross-issuer", backend, size
+	h.R.NonTrivial = true
+	w := NewWorld(h, WorldOpts{Intermediate: tp.Chance(1, 2), DNShapeA: 7, DNShapeB: 7})
+	lb := w.NewLocation(LocOpts{Name: "LB", URL: "http://crl.sim/b.crl", Issuer: w.B, NVers: 1, Extra: size, Width: Pick(tp, 8, 3, 13), Base: 1})
+	cfg := NodeCfg{Mode: "crl_only", Storage: backend, UpdateInterval: "10m", SigMode: "verify", CDPStrict: true}
+	n := h.NewNode("n1", cfg)
+	if err := h.Provision(n); err != nil {
+		h.Violation(ownPrefix+"setup", "provision-failed", "%v", err)
+		return
+	}
+	hs := h.Handshake(n, "load", w.ChainFor(lb.Cert(lb.Never[0]), w.B))
+	h.Quiesce()
+	if hs.Err != nil || lb.Pattern(n) != "v1" {
+		h.Violation(ownPrefix+"setup", "load-failed", "fault-free strict first load failed: %v", hs.Err)
+		return
+	}
+	listed := map[string]bool{}
+	for _, e := range lb.Versions[0].Entries {
+		listed[e.Serial.String()] = true
+	}
+	lost, invented := 0, 0
+	first := ""
+	probe := func(ca *CA, s *big.Int, what string) {
+		if s.Sign() <= 0 {
+			return
+		}
+		c := ca.Issue(EEOpts{Serial: s, CDP: []string{}})
+		r, err := h.PureProbeCert(n, c)
+		h.R.Checks++
+		if err == nil && r {
+			invented++
+			if first == "" {
+				first = fmt.Sprintf("%s: issuer %q serial %s", what, ca.Cert.Subject.String(), s)
+			}
+		}
+	}
+	for _, e := range lb.Versions[0].Entries {
+		if e.Serial.Sign() <= 0 {
+			continue
+		}
+		if r, err := h.PureProbeCert(n, lb.ProbeCert(e.Serial)); err != nil || !r {
+			lost++
+		}
+		h.R.Checks++
+		shifted, _ := new(big.Int).SetString("4"+e.Serial.String(), 10)
+		probe(w.A, e.Serial, "same serial under the other issuer")
+		probe(w.A, shifted, "the other issuer's certificate whose name+serial text reads the same")
+		if !listed[shifted.String()] {
+			probe(w.B, shifted, "the serial with a digit put in front")
+		}
+	}
+	sc["audit"] = fmt.Sprintf("listed=%d lost=%d invented=%d", len(listed), lost, invented)
+	if lost > 0 && ownsOracle("C01.listed-accepted") {
+		h.Violation("C01.listed-accepted", "cross-issuer-audit:"+backend, "%d listed serial(s) of the loaded list are not answered 'revoked'", lost)
+	}
+	if invented > 0 && ownsOracle("C11.unlisted-revoked") {
+		h.Violation("C11.unlisted-revoked", "cross-issuer-audit:"+backend, "%d certificate(s) listed by no CRL are answered 'revoked' after loading a %d-entry list of issuer %q; first: %s", invented, len(listed), w.B.Cert.Subject.String(), first)
+	}
+	h.R.Sample = map[string]any{"scenario": "cross-issuer", "backend": backend, "result": sc["audit"]}
+	h.Cleanup(n)
+}
